@@ -15,6 +15,31 @@ type InlineExec struct {
 	mu    sync.Mutex
 	first bool
 	WG    sync.WaitGroup
+	// Defer makes later actions wait until RunDeferred is called (a stalled executor).
+	Defer   bool
+	pending []netty.Action
+}
+
+// Deferred is the number of actions waiting for RunDeferred.
+func (e *InlineExec) Deferred() int {
+	e.mu.Lock()
+	defer e.mu.Unlock()
+	return len(e.pending)
+}
+
+// RunDeferred runs the held actions (and those they submit) in the caller.
+func (e *InlineExec) RunDeferred() {
+	for {
+		e.mu.Lock()
+		if len(e.pending) == 0 {
+			e.mu.Unlock()
+			return
+		}
+		a := e.pending[0]
+		e.pending = e.pending[1:]
+		e.mu.Unlock()
+		a()
+	}
 }
 
 func (e *InlineExec) Exec(a netty.Action) {
@@ -28,6 +53,12 @@ func (e *InlineExec) Exec(a netty.Action) {
 			defer e.WG.Done()
 			a()
 		}()
+		return
+	}
+	if e.Defer {
+		e.mu.Lock()
+		e.pending = append(e.pending, a)
+		e.mu.Unlock()
 		return
 	}
 	a()
